@@ -114,9 +114,9 @@ proof fn lemma_varint_step(n: u64, c: u8)
         ensures
             vi(old(reader).inner@, old(reader).pos as int, 0) == Some((n as int, reader.pos as int)),
         decreases reader.inner@.len() - reader.pos,
-//@after `let ch_data = reader.read_u8()?;`
+//@after `let ch_data =`
         assert(u64::MAX >> 7 == 0x1ff_ffff_ffff_ffffu64) by(bit_vector);
-//@before `n = (n << 7) | (ch_data & 0x7F) as u64;`
+//@before `n = (n << 7)`
         proof { lemma_varint_step(n, ch_data); }
 //@end
 
@@ -134,7 +134,7 @@ impl BlockIndexRecord {
                 Some(s) => r is Ok && rec_view(r->Ok_0) == s,
                 None => r is Err,
             },
-//@before `let blk_index = if status`
+//@before `let blk_index`
         assert(BLOCK_HAVE_DATA | BLOCK_HAVE_UNDO == 24u64) by(bit_vector) requires BLOCK_HAVE_DATA == 8u64, BLOCK_HAVE_UNDO == 16u64;
         assert(has_file(status as int) == (status & (BLOCK_HAVE_DATA | BLOCK_HAVE_UNDO) > 0));
         assert(has_pos(status as int) == (status & BLOCK_HAVE_DATA > 0));
@@ -154,7 +154,7 @@ impl BlockIndexRecord {
     ensures
         //# C03,C04:index_is_select_of_the_leveldb_pairs
         r is Ok ==> select(db_at(path), db_at(path).len() as int) == Some(map_view(r->Ok_0.view())),
-//@before `let (mut key, mut value) = (vec![], vec![]);`
+//@before `let (mut key`
     let ghost recs = db_at(path);
 //@loop 1
         invariant
@@ -163,13 +163,13 @@ impl BlockIndexRecord {
             //# C03,C04:inv_selected_prefix
             select(recs, db_iter.pos@) == Some(map_view(block_index.view())),
         decreases recs.len() - db_iter.pos@,
-//@after `db_iter.current(&mut key, &mut value);`
+//@after `db_iter.current`
         let ghost m0 = block_index.view();
         assert(recs[db_iter.pos@ - 1].0 == key@ && recs[db_iter.pos@ - 1].1 == value@);
-//@after `let record = BlockIndexRecord::from(&key[1..], &value)?;`
+//@after `let record =`
             assert((4u64 | 8u64) == 12u64) by(bit_vector);
             assert(status_selected(record.status as int) == (record.status & (BLOCK_VALID_CHAIN | BLOCK_HAVE_DATA) > 0));
-//@after `block_index.insert(record.height, record);`
+//@after `block_index.insert`
                 assert(map_view(block_index.view()) =~= map_view(m0).insert(record.height, rec_view(record)));
 //@end
 
